@@ -578,6 +578,31 @@ def run(rep: Report, prog: Program, tier: str) -> None:
                                 f"unbundled again and stops the transport it shares with the primary section", construct=f"_bundled latch of {owner}"))
     if n_moves < 3:
         raise AnalysisError("setTransport() calls of the bundling step not found in setRemoteDescription")
+    # the transport everything is moved onto must never be among the transports that are stopped afterwards (an object that is
+    # marked bundled may have been created on the transport of one that is not, e.g. max-bundle with the data channel first)
+    adds = [n for n in walk_no_nested(set_remote.node) if isinstance(n, ast.Call) and unparse(n.func) == "oldTransports.add"]
+    stops = [n for n in walk_no_nested(set_remote.node) if isinstance(n, ast.For) and unparse(n.iter) == "oldTransports"
+             and any(isinstance(a, ast.Await) and unparse(a.value.func).endswith(".stop") for b in n.body for a in ast.walk(b) if isinstance(a.value, ast.Call))]
+    if not adds or len(stops) != 1:
+        raise AnalysisError("setRemoteDescription: collection / stopping of the old transports not found")
+    excluded = any(isinstance(n, ast.Call) and unparse(n.func) in ("oldTransports.discard", "oldTransports.remove") and n.args and unparse(n.args[0]) == "primaryTransport"
+                   and n.lineno < stops[0].lineno for n in walk_no_nested(set_remote.node))
+    guarded_adds = True
+    for a in adds:
+        cur: Any = a
+        g = False
+        while id(cur) in pmr:
+            par = pmr[id(cur)]
+            if isinstance(par, ast.If) and any(cur is b for b in par.body) and "is not primaryTransport" in unparse(par.test) or (isinstance(par, ast.If) and "!= primaryTransport" in unparse(par.test)):
+                g = True
+            cur = par
+        guarded_adds = guarded_adds and g
+    if excluded or guarded_adds:
+        rep.ok("C03-BUNDLE", "setRemoteDescription: the primary transport is excluded from the transports that are stopped", sample="oldTransports.discard(primaryTransport)" if excluded else "guarded adds")
+    else:
+        rep.fail(mk_finding(prog, PROP, "C03-BUNDLE", set_remote, stops[0], "the transports of the objects moved onto the primary transport are stopped without excluding the primary "
+                            "transport itself: when a moved object was already using it (max-bundle offerer that created its data channel before its first transceiver) the "
+                            "shared transport is stopped and the session never connects", construct="primary transport may be stopped"))
 
     # ---------------------------------------------------------------- C03-SLOTS (shared with C14)
     from .common import description_slots_rule
